@@ -29,11 +29,12 @@ import (
 var suite = suites.MustFind("Ed25519")
 
 type input struct {
-	Kind   string `json:"kind"` // script | race | server
-	TCP    bool   `json:"tcp"`
-	Script []mac  `json:"script,omitempty"`
-	Race   *race  `json:"race,omitempty"`
-	Srv    *srv   `json:"server,omitempty"`
+	Kind    string   `json:"kind"` // script | race | server
+	TCP     bool     `json:"tcp"`
+	Script  []mac    `json:"script,omitempty"`
+	Race    *race    `json:"race,omitempty"`
+	Srv     *srv     `json:"server,omitempty"`
+	Blocked *blocked `json:"blocked,omitempty"`
 }
 
 // scriptClass derives the class from the script alone (never from the outcome): it
@@ -127,6 +128,8 @@ func run(raw json.RawMessage) lib.Case {
 		return runRace(in)
 	case "server":
 		return runServer(in)
+	case "blocked":
+		return runBlocked(in)
 	}
 	panic("unknown kind " + in.Kind)
 }
@@ -178,6 +181,9 @@ func corpus() []interface{} {
 		out = append(out, sc(tcp, m1("sendholdreg", 0), m0("stop"), m1("sendrelease", 0)))
 		out = append(out, sc(tcp, m1("incoming", 0), m1("sendholdreg", 1), m0("stophold"), m1("sendrelease", 0), m1("stoprelease", 0), m0("stop")))
 	}
+	// a Send blocked in the socket write when Stop is called
+	out = append(out, input{Kind: "blocked", TCP: true, Blocked: &blocked{Size: 512, Stops: 1}})
+	out = append(out, input{Kind: "blocked", TCP: true, Blocked: &blocked{Size: 1024, Stops: 2}})
 	out = append(out, serverCorpus()...)
 	return out
 }
@@ -198,6 +204,13 @@ func generate(rng *rand.Rand, tier string) []interface{} {
 	}
 	for i := 0; i < nrace; i++ {
 		out = append(out, genRace(rng, i%2 == 0))
+	}
+	nblocked := 2
+	if tier != "quick" {
+		nblocked = 20
+	}
+	for i := 0; i < nblocked; i++ {
+		out = append(out, genBlocked(rng))
 	}
 	for i := 0; i < ncloserace; i++ {
 		out = append(out, genCloseRace(rng, i%2 == 0, i))
@@ -535,6 +548,7 @@ func main() {
 	log.SetDebugVisible(0)
 	log.OutputToBuf()
 	msgType = network.RegisterMessage(&Msg{})
+	network.RegisterMessage(&Blob{})
 	registerProtocol()
 	lib.Main(lib.Harness{
 		Prop:   "C10",
